@@ -1,4 +1,99 @@
-(* C13 placeholder: statements follow *)
-From Gws Require Import Lib.Base.
-Theorem C13_placeholder : True. Proof. exact I. Qed.
-Print Assumptions C13_placeholder.
+(* C13 - Read size limit is enforced on frames, fragments and inflated size. *)
+From Gws Require Import Lib.Base Spec.MaskSpec Spec.Rfc6455 Spec.Rfc6455Recv Model.Header Model.CloseCode Model.Reader
+  Proofs.FrameProofs Proofs.ReaderProofs Proofs.ReaderRefine.
+Local Open Scope N_scope.
+
+Section C13.
+Variable utf8_valid : list N -> bool.
+Variable inflate : list N -> list N -> Z -> option (list N).
+Variable W : Type.
+Variable wdict : W -> list N.
+Variable wwrite : W -> list N -> W.
+(* the inflater is driven through limitReader (compress.go:89-92,257-272): what it returns is within the limit *)
+Hypothesis inflate_limited : forall d s l out, inflate d s l = Some out -> (Z.of_nat (length out) <= l)%Z.
+
+(* never delivered: for every byte string, every message handed to the application - single frame, reassembled from
+   fragments, or inflated - is at most ReadMaxPayloadSize bytes long *)
+Theorem C13_no_oversize_delivery : forall c, limit_ok c -> forall fuel st bs op p,
+  wf_bytes bs -> (length bs < fuel)%nat ->
+  In (EvMsg op p) (fst (read_stream utf8_valid inflate W wdict wwrite fuel c st bs)) ->
+  (Z.of_nat (length p) <= r_limit c)%Z.
+Proof.
+  intros c Hc fuel st bs op p Hw Hf Hin.
+  pose proof (read_stream_safe utf8_valid inflate W wdict wwrite inflate_limited c Hc fuel st bs Hw Hf) as H.
+  destruct (read_stream _ _ _ _ _ fuel c st bs) as [evs o]. destruct H as (_ & _ & Hall).
+  rewrite Forall_forall in Hall. exact (Hall _ Hin).
+Qed.
+
+(* a frame whose declared length exceeds the limit is answered 1009 from the header alone: the result does not depend on
+   whether any payload byte has arrived (`rest` is arbitrary, possibly empty), i.e. nothing is buffered first.
+   This includes 64-bit lengths with the top bit set (negative after int()). *)
+Theorem C13_frame_too_large : forall c st bs h rest,
+  parse_header bs = POk h rest -> ((h_len h < 0)%Z \/ (h_len h > r_limit c)%Z) ->
+  read_message utf8_valid inflate W wdict wwrite c st bs = SStop W [] (OFail W 1009).
+Proof.
+  intros c st bs h rest Hp Hl. unfold Reader.read_message. rewrite Hp.
+  replace ((h_len h <? 0)%Z || (h_len h >? r_limit c)%Z) with true by (destruct Hl; lia). reflexivity.
+Qed.
+
+(* the running sum of fragments: a continuation frame that takes the message above the limit is a size violation of that
+   frame (status 1009 acceptable), and by C03_frame_refines the model fails there with an acceptable status *)
+Theorem C13_fragments_too_large : forall c (sst : sstate W) f m mop comp b,
+  s_cur W sst = Some (mop, comp, b) -> f_op f = 0 ->
+  (s_limit c < Z.of_nat (length b) + Z.of_nat (length (f_payload f)))%Z ->
+  In 1009 (violations W c sst f m).
+Proof.
+  intros c sst f m mop comp b Hcur Hop Hsz. unfold violations. rewrite Hcur, Hop.
+  repeat (apply in_or_app; right).
+  replace (s_limit c <? Z.of_nat (length b) + Z.of_nat (length (f_payload f)))%Z with true by lia.
+  left. reflexivity.
+Qed.
+
+(* no false rejection: an uncompressed data message in one frame, correctly masked for the role, with no reserved bit,
+   whose length is within the limit - including exactly at it - is delivered unchanged (text: when valid UTF-8 or
+   checking is off) *)
+Theorem C13_within_limit_delivered : forall c st lf f rest,
+  frame_wf f -> lenform_ok lf (N.of_nat (length (f_payload f))) -> N.of_nat (length (f_payload f)) < 2 ^ 63 ->
+  limit_ok c -> cf_init W st = false ->
+  (f_op f = 1 \/ f_op f = 2) -> f_fin f = true -> f_rsv1 f = false -> f_rsv2 f = false -> f_rsv3 f = false ->
+  f_masked f = r_server c -> (Z.of_nat (length (f_payload f)) <= r_limit c)%Z ->
+  (r_utf8 c && (f_op f =? 1) && negb (utf8_valid (f_payload f))) = false ->
+  exists st', read_message utf8_valid inflate W wdict wwrite c st (encode_frame lf f ++ rest)
+              = SCont W [EvMsg (f_op f) (f_payload f)] st' rest.
+Proof.
+  intros c st lf f rest Hwf Hlf Hn Hc Hinit Hop Hfin H1 H2 H3 Hm Hsz Hu.
+  assert (Hst : st_ok W st) by (unfold st_ok; rewrite Hinit; discriminate).
+  pose proof (read_message_refines utf8_valid inflate W wdict wwrite c st lf f rest Hwf Hlf Hn Hc Hst) as R.
+  assert (Hcur : s_cur W (abs W st) = None) by (unfold abs; cbn; rewrite Hinit; reflexivity).
+  assert (Hnil : violations W (scfg_of c) (abs W st) f (minimal_of lf (N.of_nat (length (f_payload f)))) = []).
+  { unfold violations. rewrite Hcur, H1, H2, H3, Hm. cbn [scfg_of s_server s_pmd s_limit].
+    rewrite Bool.eqb_reflx. cbn [orb andb].
+    assert (Hk : op_known (f_op f) = true) by (destruct Hop as [-> | ->]; reflexivity).
+    assert (Hnc : is_control (f_op f) = false) by (destruct Hop as [-> | ->]; reflexivity).
+    rewrite Hk, Hnc. cbn [andb].
+    replace (f_op f =? 0) with false by (destruct Hop as [-> | ->]; reflexivity). cbn [andb].
+    rewrite Bool.andb_false_r.
+    replace (r_limit c <? Z.of_nat (length (f_payload f)))%Z with false by lia. reflexivity. }
+  unfold Rfc6455Recv.recv_frame in R. rewrite Hnil in R.
+  replace (f_op f =? 9) with false in R by (destruct Hop as [-> | ->]; reflexivity).
+  replace (f_op f =? 10) with false in R by (destruct Hop as [-> | ->]; reflexivity).
+  replace (f_op f =? 8) with false in R by (destruct Hop as [-> | ->]; reflexivity).
+  replace (f_op f =? 0) with false in R by (destruct Hop as [-> | ->]; reflexivity).
+  rewrite Hfin, H1 in R. unfold complete in R. cbn [scfg_of s_utf8] in R. rewrite Hu in R.
+  cbn [refines_step] in R. destruct R as (st' & Hr & _). exists st'. exact Hr.
+Qed.
+End C13.
+
+(* non-vacuity: limit 4; a 4-byte message is delivered, a 5-byte one answered 1009, 3+2 bytes in fragments answered 1009 *)
+Example C13_nonvacuous :
+  let c := {| r_server := false; r_pmd := false; r_limit := 4; r_utf8 := false |} in
+  let run bs := read_stream (fun _ => true) (fun _ _ _ => None) unit (fun _ => []) (fun w _ => w) 30 c (r_init unit tt) bs in
+  run [130; 4; 1; 2; 3; 4] = ([EvMsg 2 [1; 2; 3; 4]], OMore unit (r_init unit tt) false)
+  /\ run [130; 5; 1; 2; 3; 4; 5] = ([], OFail unit 1009)
+  /\ run [2; 3; 1; 2; 3; 128; 2; 4; 5] = ([], OFail unit 1009).
+Proof. vm_compute. repeat split; reflexivity. Qed.
+
+Print Assumptions C13_no_oversize_delivery.
+Print Assumptions C13_frame_too_large.
+Print Assumptions C13_fragments_too_large.
+Print Assumptions C13_within_limit_delivered.
